@@ -591,6 +591,10 @@ func hasImpureCall(pe *pathEnum, e ast.Expr) bool {
 		if pe.pure != nil && pe.pure(call) {
 			return true
 		}
+		// uint128.New(lo, hi) builds a value from its arguments (rendered as U128(…) by the term translator)
+		if f, ok := calleeObj(pe.info, call).(*types.Func); ok && f.Name() == "New" && f.Pkg() != nil && strings.HasSuffix(f.Pkg().Path(), "lukechampine.com/uint128") {
+			return true
+		}
 		impure = true
 		return false
 	})
